@@ -233,6 +233,20 @@ pub proof fn lemma_first_unique(s: Seq<char>, p: Seq<char>, i: int)
     if i < j { assert(!is_sub_at(s, p, i)); }
     if j < i { assert(!is_sub_at(s, p, j)); }
 }
+/// stepping over an ASCII character found at byte offset r: the next byte is a boundary and the next char index
+pub proof fn lemma_step_ascii(s: &str, r: int, c: char)
+    requires 0 <= r <= s.spec_bytes().len(), is_char_boundary(s.spec_bytes(), r), 0 <= cidx(s@, r) < s@.len(), s@[cidx(s@, r)] == c, (c as u32) < 128
+    ensures is_char_boundary(s.spec_bytes(), r + 1), r + 1 <= s.spec_bytes().len(), cidx(s@, r + 1) == cidx(s@, r) + 1
+{
+    let i = cidx(s@, r);
+    axiom_cidx(s, r);
+    assert(s@.subrange(0, i + 1) =~= s@.subrange(0, i) + seq![c]);
+    lemma_encode_concat(s@.subrange(0, i), seq![c]);
+    b_encode_ascii_char(c);
+    assert(boff(s@, i + 1) == r + 1);
+    axiom_boff_boundary(s, i + 1);
+    axiom_cidx_boff(s@, i + 1);
+}
 /// starts_with / ends_with a single char
 pub broadcast proof fn b_sub_at_char(s: Seq<char>, c: char, i: int)
     ensures #[trigger] is_sub_at(s, seq![c], i) == (0 <= i < s.len() && s[i] == c)
